@@ -315,6 +315,25 @@ def enumerate_steps(rs, inputs):
                 val = {"t": "tensor_real", "data": enc(rs.randn(*((m,) + tuple(shape)))), "inputs": [[n, m]]}
                 steps.append(("subs_mixed:int+real_sharing_batch_name:%s,%s[%d]" % (n, r, m), {"op": "subs", "subs": OrderedDict([(n, {"t": "num_int", "v": int(rs.randint(sz))}), (r, val)])}))
 
+    # --- one call that RENAMES a batch input while a real value mentions the input's OLD name (a caller-side variable of that
+    # name): simultaneous semantics keep the value's input free and distinct from the renamed one (C04, C12)
+    for (n, sz) in ints[:2]:
+        for (r, shape) in reals[:2]:
+            val = {"t": "tensor_real", "data": enc(rs.randn(*((sz,) + tuple(shape)))), "inputs": [[n, sz]]}
+            steps.append(("subs_mixed:rename+real_mentioning_old_name:%s,%s" % (n, r), {"op": "subs", "subs": OrderedDict([(n, {"t": "var", "name": newi[0]}), (r, val)])}))
+    # --- affine values that mention each other's keys: g(x = c * y, y = c' * x) is a simultaneous substitution (C04, C12)
+    if len(same) >= 1:
+        (a, sa), (b, sb) = same[0]
+        ea = ["mul", const(rs, ()), ["var", b, list(sb)]]
+        eb = ["mul", const(rs, ()), ["var", a, list(sa)]]
+        steps.append(("affine:swap_with_scaling:%s,%s" % (a, b), {"op": "subs", "subs": OrderedDict([(a, {"t": "affine", "expr": ea}), (b, {"t": "affine", "expr": eb})])}))
+        steps.append(("affine:value_mentions_other_key:%s,%s" % (a, b), {"op": "subs", "subs": OrderedDict([(a, {"t": "affine", "expr": ea})])}))
+
+    # --- an affine value that mentions its OWN key: g(x = c * x + d) reads the caller's x (C04, C12)
+    for (n, sh) in reals[:2]:
+        e = ["add", ["mul", const(rs, ()), ["var", n, list(sh)]], const(rs, sh)]
+        steps.append(("affine:self_scaling:%s" % n, {"op": "subs", "subs": {n: {"t": "affine", "expr": e}}}))
+
     # --- align: every permutation of (up to 4) names, plus prefixes
     names = list(inputs)
     perms = list(itertools.permutations(names))
